@@ -308,9 +308,16 @@ impl Exporter {
         let rs = t.rec_size();
         // keep one flowset well inside the 16-bit length field
         let n = self.n_records(rng, cfg).min((12000 / rs.max(1)).max(1));
-        let records: Vec<Vec<Vec<u8>>> = (0..n)
-            .map(|_| t.fields.iter().map(|(ty, l)| gen_value(rng, v9_dt(*ty), *l as usize, cfg)).collect())
-            .collect();
+        let mut records: Vec<Vec<Vec<u8>>> = Vec::with_capacity(n);
+        for _ in 0..n {
+            if !records.is_empty() && rng.chance(1, 10) {
+                // the same flow record twice in a row is legal
+                let prev = records[records.len() - 1].clone();
+                records.push(prev);
+            } else {
+                records.push(t.fields.iter().map(|(ty, l)| gen_value(rng, v9_dt(*ty), *l as usize, cfg)).collect());
+            }
+        }
         let padding = self.padding(rng, cfg, rs.saturating_sub(1));
         V9FlowSet::Data { tmpl: t.clone(), records, padding }
     }
@@ -505,10 +512,10 @@ impl Exporter {
 
     pub fn ipfix_data(&self, rng: &mut Rng, cfg: &Cfg, id: u16, options: bool, fields: &[IpfixSpec]) -> IpfixSet {
         let n = self.n_records(rng, cfg);
-        let mut records = vec![];
+        let mut records: Vec<Vec<Cell>> = vec![];
         let mut size = 0usize;
         for _ in 0..n {
-            let r: Vec<Cell> = fields.iter().map(|s| self.ipfix_cell(rng, cfg, s)).collect();
+            let r: Vec<Cell> = if !records.is_empty() && rng.chance(1, 10) { records[records.len() - 1].clone() } else { fields.iter().map(|s| self.ipfix_cell(rng, cfg, s)).collect() };
             size += r.iter().map(|c| c.wire().len()).sum::<usize>();
             records.push(r);
             if size > 12000 {
@@ -590,18 +597,28 @@ pub fn fixed_pkt(rng: &mut Rng, version: u16, n: usize) -> FixedPkt {
     header[2..4].copy_from_slice(&(n as u16).to_be_bytes());
     let rl = if version == 5 { 48 } else { 52 };
     let layout: &[(&str, usize, usize)] = if version == 5 { crate::tables::V5_RECORD } else { crate::tables::V7_RECORD };
-    let records = (0..n)
-        .map(|_| {
-            let mut r = rng.bytes(rl);
-            for (_, off, w) in layout {
-                if rng.chance(1, 4) {
-                    let b = rng.bbytes(*w);
-                    r[*off..*off + *w].copy_from_slice(&b);
-                }
+    let mut records: Vec<Vec<u8>> = Vec::with_capacity(n);
+    for _ in 0..n {
+        // exporters repeat flow records; a constant-filled body is also legal
+        if !records.is_empty() && rng.chance(1, 10) {
+            let prev = records[records.len() - 1].clone();
+            records.push(prev);
+            continue;
+        }
+        if rng.chance(1, 40) {
+            let b = *rng.pick(&[0u8, 0xff, 0x01]);
+            records.push(vec![b; rl]);
+            continue;
+        }
+        let mut r = rng.bytes(rl);
+        for (_, off, w) in layout {
+            if rng.chance(1, 4) {
+                let b = rng.bbytes(*w);
+                r[*off..*off + *w].copy_from_slice(&b);
             }
-            r
-        })
-        .collect();
+        }
+        records.push(r);
+    }
     FixedPkt { version, header, records }
 }
 
